@@ -18,21 +18,21 @@ Import ListNotations.
 Local Open Scope list_scope.
 
 Section Generic.
-  Variable tbl : list (nat * list ledge).
+  Variable tbl : list (N * list ledge).
   Variable cf : nat.
 
-  Definition eps_of (s : nat) : list nat :=
+  Definition eps_of (s : N) : list N :=
     flat_map (fun e => match e with LEps t => [t] | LChars _ _ => [] end) (edges_of tbl s).
-  Definition subset_nat (a b : list nat) : bool := forallb (fun x => mem_nat x b) a.
+  Definition subset_N (a b : list N) : bool := forallb (fun x => mem_N x b) a.
   (* (b): closed under epsilon edges *)
-  Definition eps_closed (Q : list nat) : bool := forallb (fun s => subset_nat (eps_of s) Q) Q.
-  Definition mem_set (Q : list nat) (sets : list (list nat)) : bool := existsb (list_nat_eqb Q) sets.
+  Definition eps_closed (Q : list N) : bool := forallb (fun s => subset_N (eps_of s) Q) Q.
+  Definition mem_set (Q : list N) (sets : list (list N)) : bool := existsb (list_N_eqb Q) sets.
 
   (* exploration of the subset automaton (only used to COMPUTE the family; its result is checked below) *)
-  Definition succs (Q : list nat) : list (list nat) :=
+  Definition succs (Q : list N) : list (list N) :=
     let es := out tbl Q in
     flat_map (fun c => match step tbl cf es c with [] => [] | Q' => [Q'] end) all_ascii.
-  Fixpoint explore (fuel : nat) (work seen : list (list nat)) : list (list nat) :=
+  Fixpoint explore (fuel : nat) (work seen : list (list N)) : list (list N) :=
     match fuel with
     | O => seen
     | S f => match work with
@@ -42,19 +42,19 @@ Section Generic.
     end.
 
   (* the certificate *)
-  Definition step_ok (sets : list (list nat)) (Q : list nat) : bool :=
+  Definition step_ok (sets : list (list N)) (Q : list N) : bool :=
     let es := out tbl Q in
     forallb (fun c => let tg := targets es (N_of_ascii c) in
                       match clos tbl cf tg with
                       | [] => is_nil tg
-                      | Q' => mem_set Q' sets && subset_nat tg Q'
+                      | Q' => mem_set Q' sets && subset_N tg Q'
                       end) all_ascii.
-  Definition fuel_check (start : nat) (sets : list (list nat)) : bool :=
-    mem_set (clos tbl cf [start]) sets && mem_nat start (clos tbl cf [start]) &&
+  Definition fuel_check (start : N) (sets : list (list N)) : bool :=
+    mem_set (clos tbl cf [start]) sets && mem_N start (clos tbl cf [start]) &&
     forallb (step_ok sets) sets && forallb eps_closed sets.
 
   (* the set of states after reading a text, as `scan` computes it ([] = the scan has stopped) *)
-  Fixpoint run (Q : list nat) (l : text) : list nat :=
+  Fixpoint run (Q : list N) (l : text) : list N :=
     match l with
     | [] => Q
     | c :: r => match step tbl cf (out tbl Q) c with [] => [] | Q' => run Q' r end
@@ -63,11 +63,11 @@ Section Generic.
   Lemma mem_set_In : forall Q sets, mem_set Q sets = true -> In Q sets.
   Proof.
     intros Q sets H. unfold mem_set in H. apply existsb_exists in H. destruct H as (Q' & Hin & E).
-    unfold list_nat_eqb in E. destruct (list_eq_dec Nat.eq_dec Q Q') as [->|]; [exact Hin|discriminate].
+    unfold list_N_eqb in E. destruct (list_eq_dec N.eq_dec Q Q') as [->|]; [exact Hin|discriminate].
   Qed.
 
-  Variable start : nat.
-  Variable sets : list (list nat).
+  Variable start : N.
+  Variable sets : list (list N).
   Hypothesis Hcheck : fuel_check start sets = true.
 
   Lemma run_in_sets : forall l Q, In Q sets -> run Q l = [] \/ In (run Q l) sets.
@@ -92,7 +92,7 @@ Section Generic.
 End Generic.
 
 (* ---- the generated automaton ---- *)
-Definition lexer_sets : list (list nat) :=
+Definition lexer_sets : list (list N) :=
   explore AntlrLexer.lexer_edges lexer_cfuel 4096
           [clos AntlrLexer.lexer_edges lexer_cfuel [AntlrLexer.lexer_start]] [].
 
